@@ -10,35 +10,35 @@ PY = "/venv/bin/python"
 CHECKS = {
     "C01": ("property-based testing (Hypothesis): generated component programs vs independent wire-matrix reference model",
             "Generated-input search: thousands of component programs (all kinds, boundary-weighted values) whose U/U_full are compared entry-wise with an independently written ordered-product model; unitarity, dimension and leading-block clauses asserted directly. Exploration, not proof: sizes <= 7 modes / 40 ops.",
-            "Trusts numpy linear algebra and the reference model's self-tests; tolerance 1e-9.", "3/C01"),
+            "Trusts numpy linear algebra and the reference model's self-tests; entries compared at 1e-6 (arccos near reflectivity 1 is ill-conditioned, DESIGN 7.2), unitarity of U_full at 1e-9; a complete sweep of all short programs over a small alphabet is exhaustive.", "3/C01"),
     "C02": ("property-based testing (Hypothesis) of circuit-addition trees vs wire-level reference model, plus exhaustive enumeration of two-addition placements",
             "Generated trees of additions (nesting <= 3, heralds with in != out, any declaration order, lossy shorthands) compared through heralded transition amplitudes with a reference model that implements the C02 wording; a finite core of two successive heralded additions is enumerated exhaustively.",
-            "Trusts own permanent (self-tested against the n! definition) and numpy; compares visible behaviour only.", "3/C02"),
+            "Trusts own permanent (self-tested against the n! definition) and numpy; compares visible behaviour only; mode arguments also given as numpy integers; groups nested inside groups with ancillas at both levels have their own generator.", "3/C02"),
 }
 
 CHECKS["C03"] = ("property-based testing (Hypothesis): Simulator amplitudes vs own Ryser permanent on the real full unitary; generated invalid inputs must be rejected",
     "Generated circuits (loss, nested heralded additions, heralds with photons on arbitrary in/out modes) x generated Fock inputs/outputs (bunched, vacuum, lists); every returned amplitude compared with an independent permanent formula; invalid-input generator asserts rejection with the documented exception family.",
-    "Trusts own permanent (self-tested) and numpy; tolerance 1e-9; sizes <= 6 visible modes, <= 4 photons.", "3/C03")
+    "Trusts own permanent (self-tested) and numpy; tolerance 1e-9; sizes <= 6 visible modes, <= 4 photons in general, up to 16 photons on two modes against exact rational arithmetic; circuits with every mode heralded included.", "3/C03")
 CHECKS["C04"] = ("property-based testing (Hypothesis): Sampler / Backend distributions vs exact marginalised Fock distribution from own permanent, differential between the two backends",
     "Generated lossy/lossless/heralded circuits and inputs; each backend's distribution compared pattern by pattern with an exact reference (loss modes traced out), normalisation, non-negativity and photon-number bound asserted, and the two backends compared with each other.",
-    "Trusts own permanent and Fock enumeration; tolerance = documented 1e-9 truncation per full state.", "3/C04")
+    "Trusts own permanent and Fock enumeration; many-loss-element circuits use a Halmos dilation of the n x n transfer matrix (no loss modes enumerated); tolerance = documented 1e-9 truncation per detected pattern plus 1e-9 arithmetic.", "3/C04")
 
 CHECKS["C05"] = ("property-based testing (Hypothesis): differential relations between Simulator/Sampler/Analyzer/QuickSampler plus exact reference distribution from own permanent",
     "Generated circuits with heralds (photons, in != out modes, nested ancillas), loss, post-selection objects/predicates, expected mappings in any order and both QuickSampler detector modes; every clause of C05 is evaluated against an exact distribution computed independently and against the other objects; qubit-library circuits are a second generator.",
-    "Trusts own permanent/Fock enumeration and own evaluation of post-selection descriptions; truncation tolerance as documented; QuickSampler compared only when the accepted mass exceeds 1e-6.", "3/C05")
+    "Trusts own permanent/Fock enumeration and own evaluation of post-selection descriptions; truncation tolerance 1e-9 per pattern as documented; QuickSampler compared only when the accepted mass exceeds 1e-7; expected outputs are treated as a set.", "3/C05")
 CHECKS["C06"] = ("property-based testing (Hypothesis): Sampler distribution under imperfect Source vs own per-photon six-outcome mixture model; closed forms for g2, HOM visibility, classical limit",
     "Generated source parameters (boundary-weighted), inputs (bunched, herald photons), lossy/lossless circuits, both backends; distribution compared with an independently written mixture-of-distinguishable-groups model; closed-form metamorphic relations checked separately.",
     "Trusts own permanent and the documented per-photon coefficients; emission configurations are merged by physical equivalence (partition into distinguishability groups) before thresholding.", "3/C06")
 
 CHECKS["C07"] = ("property-based testing (Hypothesis): every sampling method vs exact detected/heralded/post-selected reference distribution; deterministic per-sample predicates plus Pearson chi-square at p < 1e-9",
     "Generated circuits, inputs, detector settings, post-selection, min_detection, N and seeds for the five sampling methods; each returned state is checked deterministically (length, heralds removed, predicates, support), counts and the accepted fraction statistically against an exact reference built from own permanent and own detector model; seed reproducibility and sample counts asserted exactly.",
-    "Convergence clause is statistical (bias below ~3 sigma/sqrt(N) invisible); chi-square approximation with pooled cells; scipy.stats.chi2 trusted.", "3/C07")
+    "Convergence clause is statistical (bias below ~3 sigma/sqrt(N) invisible); chi-square approximation with pooled cells; scipy.stats.chi2 trusted; frequencies of sample_N_outputs compared only when the accepted mass is >= 1e-5 (below that the documented truncation is not small against it).", "3/C07")
 CHECKS["C08"] = ("stateful property-based testing (Hypothesis RuleBasedStateMachine): snapshots of every pooled circuit/state compared after each generated API call, including generated rejected calls",
     "Histories of up to 25/40 calls over a pool of circuits (add, +, copy, edits, rewrites, simulate/sample/analyse/Reck/display/tomography/qiskit conversion, rejected calls); invariant after every step: nobody but the receiver of a successful mutating call changes, a raising call changes nothing, module-level gate tables unchanged.",
     "Observable state = (n_modes, input_modes, heralds, U_full bytes, spec length, internal modes); tomography experiments are fed fake counts (only argument immutability is asserted there).", "3/C08")
 CHECKS["C09"] = ("property-based testing (Hypothesis): generated rewrite sequences on generated circuits, before/after comparison of U_full/heralds plus structural post-conditions and independence of copies",
     "Generated circuits (all component kinds, groups, heralded groups, parameters) and a swap-heavy generator; after each of 1-4 generated rewrites the full unitary, heralds, input size are compared with the original, post-conditions asserted, an earlier copy must stay untouched and later edits of either object must not leak.",
-    "Metamorphic oracle on the real objects; numpy trusted; tolerance 1e-9.", "3/C09")
+    "Metamorphic oracle on the real objects; numpy trusted; tolerance 1e-9; Parameters must stay live through every rewrite except freezing.", "3/C09")
 CHECKS["C10"] = ("stateful property-based testing (Hypothesis RuleBasedStateMachine) against a dict model of parameter values/bounds; circuit unitaries compared differentially with a from-scratch rebuild using plain values",
     "Histories interleaving parameter creation, valid/invalid value and bound updates, ParameterDict operations, circuit construction with parameters in every slot kind (also inside sub-circuits, reused), copying and freezing; after every step model agreement, bounds invariant, live/frozen unitaries, parameter listing and CircuitCompilationError for invalid values are asserted.",
     "Value domain finite numbers and strings (no NaN/inf); plain-value semantics decided by C01/C02.", "3/C10")
@@ -48,16 +48,16 @@ CHECKS["C11"] = ("stateful property-based testing (Hypothesis RuleBasedStateMach
 
 CHECKS["C12"] = ("property-based testing (Hypothesis): generated qiskit circuits converted and compared, amplitude by amplitude (own permanent), with qiskit's Operator up to one common scalar; refusals classified",
     "Generated qiskit circuits over the full supported gate set on 2-4 qubits (any qubit pairs/triples, either order, both post-selection modes, forced patterns of three-qubit gates followed by two-qubit gates and swaps between entangling gates); accepted amplitudes for every basis input must be k x Operator(qc) with the stated |k|^2, nothing accepted outside the qubit subspace; a refusal must be a ValueError in a legitimate class.",
-    "qiskit.quantum_info.Operator is the reference; own permanent; at most 3 heralded gates per circuit.", "3/C12")
+    "qiskit.quantum_info.Operator is the reference; own permanent; at most 3 heralded gates per circuit; circuits built from several quantum registers included; a conversion that does not return within 3 s is reported as a violation (hang).", "3/C12")
 CHECKS["C13"] = ("exhaustive enumeration of the finite gate/option/mode-pair table plus property-based testing (Hypothesis) of rotation angles; amplitudes from own permanent vs Kronecker-algebra gate matrices",
     "Every named gate and option, all 360 (1680) SWAP mode-pair placements and the invalid options are enumerated completely; rotation angles are generated; each amplitude matrix must be k x the named matrix with the stated |k|^2, heralded gates must not leak outside the qubit subspace, Simulator agrees on all basis inputs.",
     "Standard gate definitions; own permanent; finite part exhaustive, angles sampled.", "3/C13")
 CHECKS["C14"] = ("property-based testing (Hypothesis): structured and random unitaries / heralded lossless circuits mapped through Reck; reconstruction, phase range, error-model bounds and seed reproducibility asserted",
     "Generated unitaries of 11 structured kinds and products (exact and near zeros), generated heralded circuits, generated error models (Constant/Gaussian/TopHat per quantity) and seeds; mapped circuit structure, unitary equality, herald equality, phase range, bounds of every drawn value, identical circuit for identical seed, (sub-)unitarity.",
-    "Lossless circuits only; Gaussian bounds keep >= 0.3 sigma each side; phase interval closed at float(2 pi).", "3/C14")
+    "Lossless circuits only; Gaussian bounds keep >= 0.3 sigma each side; phase interval closed at float(2 pi); unitaries rounded to 10-11 decimals are used when lightworks itself accepts them as unitary.", "3/C14")
 CHECKS["C15"] = ("property-based testing (Hypothesis): generated dual-rail preparation circuits, exact noiseless experiment callback (own permanent), reconstruction compared with Kronecker-algebra state; requested circuits matched bijectively to measurement settings",
     "Generated base circuits on 1-3 qubits (arbitrary local unitaries, library gates, post-selected and heralded entangling gates); density matrix, Hermiticity, trace, fidelity, the exact set of requested circuits (3^n, bijective, base followed by basis changes), base circuit unchanged, and a second process() after an in-place edit; thorough tier varies PYTHONHASHSEED per shard.",
-    "Exact outcome weights are passed as counts; post-selected gates are only followed by local gates.", "3/C15")
+    "Exact outcome weights are passed as counts, also with last-digit rounding variations; post-selected gates are only followed by local gates; base circuits with heralds declared directly on them included.", "3/C15")
 CHECKS["C16"] = ("property-based testing (Hypothesis): generated one- and two-qubit unitaries realised with library gates; LI / MLE / gate-fidelity results on exact noiseless data vs choi_from_unitary, its independent definition and the average-gate-fidelity formula",
     "Generated products of arbitrary single-qubit unitaries, CZ/CNOT (both orientations, post-selected and heralded) and SWAP; LI Choi entry-wise, MLE positivity / trace preservation / fidelity >= 0.99, gate fidelity against V and against generated other targets, choi_from_unitary against its definition.",
     "V from plain Kronecker algebra; exact callback from own permanent; MLE read at the property's 0.99.", "3/C16")
